@@ -215,6 +215,7 @@ func corpusDeterminism() []*modSpec {
 		mk("det-enum-constants-only-elsewhere", "package models\n\nimport (\n\t\"example.com/org/models/a\"\n\t\"example.com/org/models/b\"\n\t\"example.com/org/models/kinds\"\n)\n\nvar _ = a.A1\nvar _ = b.B1\n\ntype S struct{ K kinds.Kind }\n",
 			modFile{"kinds/kinds.go", "package kinds\n\ntype Kind int\n"}, modFile{"a/a.go", "package a\n\nimport \"example.com/org/models/kinds\"\n\nconst A1 kinds.Kind = 1\n"},
 			modFile{"b/b.go", "package b\n\nimport \"example.com/org/models/kinds\"\n\nconst B1 kinds.Kind = 2\nconst B2 kinds.Kind = 3\n"}),
+		mk("det-many-sql-directives", "package models\n\ntype IdUser int64\ntype IdGroup int64\n\n// gomacro:SQL ADD UNIQUE(Name)\n// gomacro:SQL ADD UNIQUE(Email)\n// gomacro:SQL ADD UNIQUE(Phone)\n// gomacro:SQL ADD UNIQUE(Login, Domain)\n// gomacro:SQL ADD CHECK(Name <> '')\n// gomacro:SQL _SELECT KEY(Login)\n// gomacro:SQL _SELECT KEY(Domain, Phone)\n// gomacro:QUERY ByMail SELECT * FROM User WHERE Email = $mail$;\n// gomacro:QUERY ByPhone SELECT * FROM User WHERE Phone = $p$ AND Domain = $d$;\ntype User struct {\n\tId IdUser\n\tName string\n\tEmail string\n\tPhone string\n\tLogin string\n\tDomain string\n}\n\n// gomacro:SQL ADD UNIQUE(Label)\n// gomacro:SQL ADD UNIQUE(Code)\ntype Group struct {\n\tId IdGroup\n\tLabel string\n\tCode string\n}\n\n// gomacro:SQL ADD UNIQUE(IdUser, IdGroup)\n// gomacro:SQL ADD UNIQUE(IdUser, Rank)\n// gomacro:SQL ADD UNIQUE(IdGroup, Rank)\ntype Member struct {\n\tIdUser IdUser\n\tIdGroup IdGroup\n\tRank int\n}\n"),
 		mk("det-many-unions", "package models\n\ntype U1 interface{ is1() }\ntype U2 interface{ is2() }\ntype U3 interface{ is3() }\ntype U4 interface{ is4() }\n\ntype A struct{ X int }\ntype B struct{ Y int }\n\nfunc (A) is1() {}\nfunc (A) is2() {}\nfunc (A) is3() {}\nfunc (A) is4() {}\nfunc (B) is1() {}\nfunc (B) is3() {}\n\ntype S struct {\n\tV1 U1\n\tV2 U2\n\tV3 U3\n\tV4 U4\n}\n"),
 	}
 }
